@@ -37,7 +37,7 @@ class LuceneCheck:
 
     :param int zeal: if zeal > 0 do extra check of some pitfalls, depending on zeal level
     """
-    field_name_re = re.compile(r"^\w+$")
+    field_name_re = re.compile(r"^\w+\Z")
     space_re = re.compile(r"\s")
     invalid_term_chars_re = re.compile(r"[+/-]")
 
